@@ -11,6 +11,7 @@ import (
 	"errors"
 	"fmt"
 	"io"
+	"slices"
 
 	"github.com/andybalholm/brotli"
 	"github.com/klauspost/compress/zstd"
@@ -520,6 +521,14 @@ func (c *UConn) clientHandshake(ctx context.Context) (err error) {
 		return err
 	}
 
+	// [uTLS] pickTLSVersion only consults Config.MinVersion/MaxVersion, which SetTLSVers
+	// takes from the spec's TLSVersMin/TLSVersMax and which may be wider than what the
+	// ClientHello said on the wire. Never settle on a version that was not advertised.
+	if !c.versionWasAdvertised(hello, c.vers) {
+		c.sendAlert(alertProtocolVersion)
+		return fmt.Errorf("tls: server selected protocol version %x that the ClientHello did not advertise", c.vers)
+	}
+
 	// If we are negotiating a protocol version that's lower than what we
 	// support, check for the server downgrade canaries.
 	// See RFC 8446, Section 4.1.3.
@@ -572,6 +581,26 @@ func (c *UConn) clientHandshake(ctx context.Context) (err error) {
 		return err
 	}
 	return nil
+}
+
+// versionWasAdvertised reports whether vers is a version the ClientHello offered on the
+// wire: one listed in its supported_versions extension when there is one, otherwise any
+// version up to legacy_version.
+func (c *UConn) versionWasAdvertised(hello *clientHelloMsg, vers uint16) bool {
+	if c.clientHelloBuildStatus == BuildByUtls {
+		// the wire extensions are exactly c.Extensions
+		for _, e := range c.Extensions {
+			if sv, ok := e.(*SupportedVersionsExtension); ok {
+				return slices.Contains(sv.Versions, vers)
+			}
+		}
+		return vers <= hello.vers
+	}
+	// default crypto/tls hello: supportedVersions is marshaled whenever it is non-empty
+	if len(hello.supportedVersions) > 0 {
+		return slices.Contains(hello.supportedVersions, vers)
+	}
+	return vers <= hello.vers
 }
 
 func (c *UConn) echTranscriptMsg(outer *clientHelloMsg, echCtx *echClientContext) (err error) {
